@@ -10,10 +10,12 @@
                  (conv_nest / eager_nest = outer_arr of the view computed by ConverterIdx.run_conv / EagerIdx.run_eager).
    A form is the list of component kinds (slice | advanced index of rank r), omitted trailing axes being slices.
 
-   Not covered by a general theorem: the step from the emitted op chain to the per-axis view (run_conv = np_index) for
-   index tuples with two or more tensor-valued components or with a constant int next to a tensor index; it is proved
-   for the classes named below and compared with onnxruntime / eager on every generated case (every kind tuple of length
-   <= 4).  C11_conv_adv_good_full states the missing general theorem. *)
+   Converter: proved for every index tuple (any number of constant ints, slices, tensor-valued indices of any rank):
+   the emitted chain computes the per-axis view (sound + complete, Index/AdvChain.v, AdvConvProofs.v), hence NumPy's result
+   exactly on the good forms (sound + complete) and the outer arrangement on the others.
+   Not covered by a general theorem: the same step for eager Tensor.__getitem__ with a tensor index of rank >= 1 (its chain is
+   [Gather of the lone scalar], then the tensor Gathers last axis first; AdvChain.chain_sound applies, the stage lemma for
+   eager is not written) -- proved for ints / rank-0 tensors / slices, compared with eager evaluation on every generated case. *)
 From Coq Require Import ZArith List Bool.
 Import ListNotations.
 Require Import OV.Index.NumpySpec OV.Index.OnnxSlice OV.Index.ConverterIdx OV.Index.EagerIdx OV.Index.ViewProofs
